@@ -1,6 +1,6 @@
 (* C17/Properties.v — the property theorems only.  Each is closed by [exact] of a lemma from
    Proofs.v / Atomic.v / Linearizable.v and followed by Print Assumptions. *)
-From OV Require Import Common.Base C17.Model C17.Proofs C17.Atomic C17.Linearizable C17.E2E C17.Sharding.
+From OV Require Import Common.Base C17.Model C17.Proofs C17.Atomic C17.Linearizable C17.E2E C17.Sharding C17.Async.
 
 (* The sharded table (16 association lists selected by shardFor) answers every sequential history
    of Claim/Release/IsOwner/Lookup exactly as ONE flat partial map from tuples to owners does:
@@ -362,6 +362,45 @@ Theorem C17_pppoe_site_reports_every_displaced :
     end.
 Proof. exact component_claim_any_events. Qed.
 Print Assumptions C17_pppoe_site_reports_every_displaced.
+
+(* ---- the eviction protocol with an ASYNCHRONOUS bus and session teardown (Model.a_step) ----
+   Operations: an IPoE creation path on a tuple, a PADR, a PADT for the tuple's current PPPoE session, a published
+   terminate request for the tuple's IPoE session, and the delivery of the oldest queued terminate event to both
+   components — in ANY order (evictions may stay queued while sessions come and go).  For every history:
+   (1) every live session is the owner of its tuple or has a terminate event naming it in the queue;
+   (2) the owner of a tuple is a live session;
+   (3) whenever the queue is empty — all evictions processed — every live session on a tuple is its owner: an IPoE
+       session excludes every PPPoE session of the tuple and vice versa, and two PPPoE entries of a tuple are the
+       same session.  No two live sessions of different protocols coexist once the evictions are processed. *)
+Theorem C17_async_eviction_protocol :
+  forall ops,
+    let aw := a_run Repaired aworld0 ops in
+    let w := a_w aw in
+    (forall k s, m_get k (w_ipoe w) = Some s -> reg_get (w_reg w) k = Some s \/ In (o_sid s, k) (a_q aw)) /\
+    (forall k sid, In (k, sid) (w_pp_all w) -> reg_get (w_reg w) k = Some (ppo sid k) \/ In (sid, k) (a_q aw)) /\
+    (forall k o, reg_get (w_reg w) k = Some o ->
+       m_get k (w_ipoe w) = Some o \/ (o = ppo (o_sid o) k /\ In (k, o_sid o) (w_pp_all w))) /\
+    (a_q aw = [] ->
+     forall k,
+       (forall s, m_get k (w_ipoe w) = Some s -> reg_get (w_reg w) k = Some s /\ count_pp k (w_pp_all w) = 0%nat) /\
+       (forall sid, In (k, sid) (w_pp_all w) ->
+          reg_get (w_reg w) k = Some (ppo sid k) /\ m_get k (w_ipoe w) = None /\
+          forall sid', In (k, sid') (w_pp_all w) -> sid' = sid)).
+Proof. exact async_eviction_protocol. Qed.
+Print Assumptions C17_async_eviction_protocol.
+
+(* both protocols live on one tuple WHILE the eviction is queued; one session once it is delivered; a PADT of the
+   displacing session before the delivery leaves the tuple empty; a longer interleaving *)
+Example C17_async_nonvacuous :
+  e2e_snapshot (a_w (a_run Repaired aworld0 [ACreateI ak; APadr ak])) ak = (1%nat, 1%nat, Some proto_pppoe) /\
+  length (a_q (a_run Repaired aworld0 [ACreateI ak; APadr ak])) = 1%nat /\
+  e2e_snapshot (a_w (a_run Repaired aworld0 [ACreateI ak; APadr ak; ADeliver])) ak = (0%nat, 1%nat, Some proto_pppoe) /\
+  a_q (a_run Repaired aworld0 [ACreateI ak; APadr ak; ADeliver]) = [] /\
+  e2e_snapshot (a_w (a_run Repaired aworld0 [ACreateI ak; APadr ak; APadt ak; ADeliver])) ak = (0%nat, 0%nat, None) /\
+  e2e_snapshot (a_w (a_run Repaired aworld0 [APadr ak; ACreateI ak; AOperI ak; APadr ak; ADeliver; ADeliver; ADeliver])) ak
+    = (0%nat, 1%nat, Some proto_pppoe).
+Proof. exact async_example. Qed.
+Print Assumptions C17_async_nonvacuous.
 
 (* ---- ownership across a RESTART (Model.e2e_restart: the registry starts empty and every session the
         components restore from their checkpoints claims its tuple again) ----
